@@ -146,7 +146,9 @@ def make_pool(seed):
     codes = {
         'a.p8': b'src_a=%d\nprint("a")\n' % (1 + r[0]),
         'b.p8': b'src_b=%d\nfunction _draw()\n cls(%d)\nend\n' % (1 + r[1], r[2] % 16),
-        'c.p8.png': b'src_c=%d\nprint("c")\n' % (1 + r[3]),
+        # (code that uses _update60 and does not compress: stored as plain text in a .p8.png)
+        'c.p8.png': b'src_c=%d\nfunction _update60()\n T="AZ-BY-CX-DW-EV-FU-GT-HS-IR-JQ-KP-LO-MN?"\n'
+                    b' U=\'QW-ER-TY-UI-OP-AS-DF-GH-JK-LZ-XC-VB?\'\n V="PL-OK-MI-JN-UH-BY-GV-TF-CR-DX-ES-ZW?"\nend\n' % (1 + r[3]),
         'd.p8.png': b'-- cart d\nsrc_d=%d\nfunction _init()\n t=%d\nend' % (1 + r[4], r[5]),   # no final newline
         'm.lua': b'-- main %d\nsrc_m=%d\nfunction _update()\n src_m+=1\nend\n' % (r[6], 1 + r[7]),
         'prev': b'prev_out=%d\nprint("o")\n' % (1 + r[8]),
@@ -504,6 +506,16 @@ def part_grid(ctx):
         seed = bytes([4 * (ctx.derive('twin', i) % 64)]) + ctx.derive('twinpool', i // 7).to_bytes(8, 'big')[:2]
         do_case(ctx, seed, ok, sel, extra=('twin_pool',))
 
+    # every section from ONE cart (of OUT's format and of the other one): OUT still keeps its own label
+    k = 0
+    for src in ('a.p8', 'c.p8.png', 'b.p8', 'd.p8.png'):
+        for ok in OUT_KINDS:
+            k += 1
+            if k % ctx.nshards != ctx.shard:
+                continue
+            seed = ctx.derive('allsix', k // 5).to_bytes(8, 'big')[:3]
+            do_case(ctx, seed, ok, {sec: src for sec in SECTIONS}, extra=('all_sections_from_one_cart',))
+
     def body(raw):
         seed, ok, sel = decode_cfg(raw)
         prelude = (None, None, 'failed', 'succeeded')[raw[-1] % 4]
@@ -674,7 +686,7 @@ def vacuity(total, tier):
     need = ['out_' + k for k in OUT_KINDS] + ['err_' + k for k in ERR_KINDS]
     need += ['label_kept_png', 'label_kept_p8', 'label_empty_png', 'mixed_sources', 'lua_from_luafile',
              'err_out_existing', 'err_out_absent', 'twin_pool', 'after_failed_build_in_same_process',
-             'after_succeeded_build_in_same_process']
+             'after_succeeded_build_in_same_process', 'all_sections_from_one_cart']
     for sec in SECTIONS:
         need += ['%s_%s' % (sec, k) for k in ('from_p8', 'from_png', 'empty', 'unspecified')]
         need.append('err_conflict_' + sec)
